@@ -599,6 +599,22 @@ func c10RunCaseOnce(f []string) (res string) {
 			if err := n.m.RequestSwitchover(ctx, both, c10Arg(tok) == 1); err != nil {
 				return "badcase switchover_error"
 			}
+		case "SU":
+			// complete switchover whose name list contains a group the nodes do not have, at position arg/2:
+			// Manager.RequestSwitchover skips it, HAPeerServer.RequestSwitchover stops at it
+			n.client.up = true
+			pos := c10Arg(tok) / 2
+			names := []string{}
+			for i, g := range both {
+				if i == pos {
+					names = append(names, "no-such-group")
+				}
+				names = append(names, g)
+			}
+			if pos >= len(both) {
+				names = append(names, "no-such-group")
+			}
+			_ = n.m.RequestSwitchover(ctx, names, c10Arg(tok)%2 == 1)
 		case "S1", "S2":
 			n.client.up = true
 			name := c10SRG
